@@ -20,7 +20,7 @@ DELTA = Fraction(1, 10**9)
 GRID = 10**12
 
 
-def cases(tier, rng, dist):
+def _cases(tier, rng, dist):
     nmax = 12 if tier == "quick" else 24     # exact tails at 1e-12-grid end points cost ~n^2 big-number operations per case
     for n in range(1, nmax + 1):
         for x in range(0, n + 1):
@@ -106,7 +106,7 @@ def call(c, p="use", kw="use", objs=None):
     return guarded(lambda: tuple(float(v) for v in binom_conf_interval(n, x, cl=float(Fraction(c["cl"])), alternative=c["alt"], p=pp, **k)))
 
 
-def run(c):
+def _run(c):
     out = {}
     if c.get("ntype") == "arr0":
         # ONE pair of count objects for the whole session: a call that fails (an undocumented keyword, one iteration only)
@@ -213,3 +213,28 @@ def generated(tier):
     """source-derived obligations (G4 formulas): regenerated from /repo's current source text on every run"""
     from ..translate.tables import obligations
     return obligations("C12")
+
+
+# ---- failure paths (round 12): every third case is preceded by calls that the library rejects, or that fail inside a user
+# callable; they raise on the unchanged tree and must leave nothing behind (common.fail_first) ----
+
+def failing_calls(c):
+    n, x = c["n"], c["x"]
+    other = 0.5 if Fraction(c["cl"]) != Fraction(1, 2) else 0.9
+    k = c["ff"] % 3
+    return [("two-sided, one iteration only", lambda: binom_conf_interval(n, min(max(x, 1), max(n - 1, 1)) if n > 1 else x, cl=other, alternative="two-sided", maxiter=1)),
+            [("unknown solver keyword", lambda: binom_conf_interval(n, x, cl=other, alternative="two-sided", tol=1e-3)),
+             ("starting point outside [0, 1]", lambda: binom_conf_interval(n, x, cl=other, alternative="two-sided", p=1.5, maxiter=0)),
+             ("x > n", lambda: binom_conf_interval(n, n + 1, cl=other, alternative="two-sided", maxiter=1))][k]]
+
+
+def cases(tier, rng, dist):
+    return mark_ff(_cases(tier, rng, dist))
+
+
+def run(c):
+    ff = fail_first(failing_calls(c)) if "ff" in c else None
+    o = _run(c)
+    if ff is not None and isinstance(o, dict):
+        o["ff"] = ff
+    return o
